@@ -65,11 +65,11 @@ type DataflowParams struct {
 	Narrow bool   // consumer takes B where the source is A
 	Cons   string // id sums add
 	Alias  bool
-	Pre    bool   // a preflight stage in the top pipeline
+	Pre    bool // a preflight stage in the top pipeline
 	// PreLast: the preflight call is written last in the pipeline body
 	// instead of first.
-	PreLast bool `json:",omitempty"`
-	Extra  string // "" chain (a downstream consumer of the result) ret-struct
+	PreLast bool   `json:",omitempty"`
+	Extra   string // "" chain (a downstream consumer of the result) ret-struct
 }
 
 func (d DataflowParams) String() string {
@@ -782,6 +782,9 @@ type FileParams struct {
 	// symbolic link to a directory outside the pipestance, and the string
 	// output names a file below that link.
 	ExtDir bool `json:",omitempty"`
+	// Slash (with Out = "d"): the producer names its directory output with
+	// a trailing slash.
+	Slash bool `json:",omitempty"`
 }
 
 func (d FileParams) String() string {
@@ -803,6 +806,9 @@ func (d FileParams) String() string {
 	}
 	if d.ExtDir {
 		sec += " extdir=true"
+	}
+	if d.Slash {
+		sec += " slash=true"
 	}
 	return fmt.Sprintf("files{out=%s proj=%q prod=%s prodwrap=%v conswrap=%v consmap=%v prodmap=%v late=%v vol=%q retain=%q topout=%v mode=%s size=%d phys=%v%s}",
 		d.Out, d.Proj, d.Prod, d.ProdWrap, d.ConsWrap, d.ConsMap, d.ProdMap, d.Late, d.Vol, d.Retain, d.TopOut, d.Mode, d.Size, d.Phys, sec)
@@ -906,6 +912,9 @@ func FileFlow(d FileParams) *Program {
 	cons := filerStage(p, consT)
 	secondOut := ""
 	if d.ExtDir && (d.Out != "sp" || d.Prod != "filew" || d.ProdMap || d.Proj != "" || d.Phys) {
+		return nil
+	}
+	if d.Slash && (d.Out != "d" || d.Prod != "filew" || d.ProdMap || d.Proj != "" || d.ExtDir) {
 		return nil
 	}
 	if d.Sparse && !(d.Second && d.ProdMap && !d.ProdDyn && (d.Out == "f" || d.Out == "g") && d.Proj == "") {
@@ -1082,6 +1091,9 @@ func FileFlow(d FileParams) *Program {
 	if d.ExtDir {
 		p.Top = &Call{Callee: "TOP", Binds: []Bind{{"n", Lit(Int(100 + size))}}}
 	}
+	if d.Slash {
+		p.Top = &Call{Callee: "TOP", Binds: []Bind{{"n", Lit(Int(300 + size))}}}
+	}
 	if d.ConsDis == "lit" {
 		p.Top.Binds = append(p.Top.Binds, Bind{"off", Lit(Bool(true))})
 	}
@@ -1163,6 +1175,18 @@ func FileFamily(maxDev int) []FileParams {
 			for _, late := range bools {
 				for _, topo := range bools {
 					out = append(out, FileParams{Out: "sp", Prod: "filew", ExtDir: true, Late: late, TopOut: topo, Vol: vol, Mode: mode, Size: 2})
+				}
+			}
+		}
+	}
+	// a directory output named with a trailing slash
+	for _, vol := range vols {
+		for _, mode := range modes {
+			for _, late := range bools {
+				for _, topo := range bools {
+					for _, ret := range []string{"", "pipe"} {
+						out = append(out, FileParams{Out: "d", Prod: "filew", Slash: true, Late: late, TopOut: topo, Retain: ret, Vol: vol, Mode: mode, Size: 2})
+					}
 				}
 			}
 		}
